@@ -110,6 +110,11 @@ MUTANTS = [
     ('lb hashBy non-string', [(['connectors'], [{'name': 'direct'}, lb('a', ['direct'], algo={'hashBy': 'request.target.port'})]), (['rules', 0, 'target'], 'a')]),
     ('lb hashBy runtime error', [(['connectors'], [{'name': 'direct'}, lb('a', ['direct'], algo={'hashBy': 'to_string(1 / (request.target.port - request.target.port))'})]), (['rules', 0, 'target'], 'a')]),
 ]
+# settings that are validated together: every bad cors / apiPrefix value under every spelling of `ui`
+for uiname, uiedit in (('absent', [(['metrics', 'ui'], DELETE)]), ('<embedded>', [(['metrics', 'ui'], '<embedded>')]), ('a directory', [(['metrics', 'ui'], '/tmp')]), ('null', [])):
+    for bname, bedit in (('cors = line break', (['metrics', 'cors'], 'a\nb')), ('cors = control char', (['metrics', 'cors'], '\x01')), ('apiPrefix = api', (['metrics', 'apiPrefix'], 'api')),
+                         ('apiPrefix = /api/*rest', (['metrics', 'apiPrefix'], '/api/*rest')), ('apiPrefix = /:x', (['metrics', 'apiPrefix'], '/:x')), ('cors = *', (['metrics', 'cors'], '*'))):
+        MUTANTS.append((f'metrics.ui {uiname} + {bname}', uiedit + [bedit]))
 # every numeric field at its boundaries (negative / non-numeric values are above)
 BIG = [0, 1, 2**31, 2**32 + 1, 2**53, 2**63 - 1, 2**63, 2**64 - 1]
 for v in BIG:
@@ -279,6 +284,14 @@ for n in ((4, 6, 8, 10, 12, 14, 20, 31) if thorough else (10, 14, 31)):
         HEAVY.append((f'syntax error inside {n} parentheses ({tail})', '(' * n + tail))
         if thorough:
             HEAVY.append((f'syntax error inside {n} x if ( ({tail})', 'if (' * n + tail))
+# a name bound by `let` that is used more than once: each level mentions the previous one w times (the work must not be w^n)
+def let_tower(n, w):
+    e = 'let v0 = 1 in '
+    for i in range(1, n + 1):
+        e += f'let v{i} = ' + ' + '.join([f'v{i-1}'] * w) + ' in '
+    return e + f'v{n} == 0'
+for n, w in (((8, 2), (14, 2), (20, 2), (24, 2), (28, 2), (8, 8), (8, 24), (12, 16)) if thorough else ((14, 2), (26, 2), (8, 24))):
+    HEAVY.append((f'let tower: {n} levels x {w} uses', let_tower(n, w)))
 LIMIT = 20.0
 
 def rules_case(c):
